@@ -153,6 +153,11 @@ def run_check(prop, tier="quick", seed=0, replay=None):
         broken += [f"factgen: {b}" for b in fg_broken]
     except Exception as e:  # factgen itself failing is a broken tie
         broken.append(f"factgen failed: {e}")
+    if hasattr(prop, "pregen"):
+        try:
+            broken += prop.pregen()
+        except Exception as e:
+            broken.append(f"pregen failed: {e}")
     try:
         binary = gobuild.build("harness")
     except gobuild.BuildError as e:
